@@ -13,7 +13,7 @@ EXPLANATION = (
 META_READ = M(r"rawdb::region_metadata::RegionMetadata::(start|len|reserved)")
 WRITE_WITH = "rawdb::region::Region::write_with"
 RESERVE = M(r"rawdb::layout::Layout::reserve")
-TAKE = M(r"rawdb::layout::Layout::take_reserved")
+TAKE = M(r"rawdb::layout::Layout::take_reserved", reach="must")
 
 
 def same_guard(ctx, chk, fn, floor):
@@ -31,10 +31,13 @@ def same_guard(ctx, chk, fn, floor):
                key="A10.1|same_guard|%s" % fn,
                msg="(start, len, reserved) of a region must be read as one snapshot under a single metadata guard")
 
+import props.anchors as anchors
+
 
 def run(ctx, chk):
     O, P, L = ctx.O, ctx.P, ctx.L
     # A10.1
+    anchors.check(ctx, chk, ['reserve', 'take_reserved', 'set_min_len_remap', 'create_reader', 'reader_new_mmap', 'remove_region_pending'])
     same_guard(ctx, chk, "rawdb::reader::Reader::new", 2)
     same_guard(ctx, chk, "rawdb::region::Region::batch_write_each", 2)
     same_guard(ctx, chk, WRITE_WITH, 3)
